@@ -91,6 +91,7 @@ class World:
         self._tnow = None
         self._tcalls = 0
         self.socket_fail = 0            # number of upcoming socket() calls that fail with EMFILE
+        self.step_hooks = {}            # kernel step number -> callable run by the driver just before that step (fault injection)
         WORLD = self
 
     # ------------------------------------------------------------------ threads
@@ -188,6 +189,11 @@ class World:
             en = self.enabled()
             if not en:
                 return n
+            if self.step_hooks:
+                h = self.step_hooks.pop(self.steps, None)
+                if h is not None:
+                    h()
+                    continue        # the fault may have changed who is enabled
             st = self.chooser(self, en) if self.chooser else self.default_choice(en)
             self._run_one(st)
             n += 1
